@@ -204,6 +204,9 @@ def cli_roundtrip(seed_tps):
         k = 0
         for t, cnt in enumerate(direct):
             for j in range(cnt):
+                if k >= len(firsts):
+                    k += 1
+                    continue   # reported below as a row-count difference
                 pid, text_arr = firsts[k][0], firsts[k][1]
                 k += 1
                 n += 1
